@@ -1,4 +1,9 @@
 // C08 — a chain of reference-counted nodes, each holding the handle to the next. Instrumented half.
+#include <stdint.h>
+#include <sys/mman.h>
+
+#include <new>
+
 #include "../rt/sim_api.h"
 #include "c08c.h"
 #include "rkcommon/memory/IntrusivePtr.h"
@@ -95,9 +100,54 @@ static void run_long(const C08CPlan *p)
   c08c_long_released();
 }
 
+// objects far apart in the address space: equality and order of handles are equality and order of the addresses
+struct FarObj : public RefCountedObject
+{
+  static int destroyed;
+  int id;
+  explicit FarObj(int i) : id(i) {}
+  ~FarObj() override { destroyed++; }
+  static void operator delete(void *) {}  // lives in reserved address space, not on the heap
+};
+int FarObj::destroyed = 0;
+static void run_far(const C08CPlan *p)
+{
+  // 20 GiB of reserved (never committed beyond the pages touched) address space at a fixed place
+  const uintptr_t base = 0x7c0000000000ULL;
+  const size_t span = 20ULL << 30;
+  void *m = mmap((void *)base, span, PROT_READ | PROT_WRITE, MAP_PRIVATE | MAP_ANONYMOUS | MAP_NORESERVE | MAP_FIXED, -1, 0);
+  if (m != (void *)base) {
+    c08c_far_done(-1);
+    return;
+  }
+  static const unsigned long long dist[] = {1ULL << 31, 1ULL << 32, 3ULL << 32, (1ULL << 32) + 64, (1ULL << 33) - 64, 64};
+  FarObj::destroyed = 0;
+  {
+    SimTag tag(SIM_TAG_SUT);
+    FarObj *oa = new ((void *)(base + 4096)) FarObj(0);
+    IntrusivePtr<FarObj> ha = oa;
+    oa->refDec();
+    for (int k = 0; k < 6; k++) {
+      if (!(p->far_apart >> k & 1))
+        continue;
+      FarObj *ob = new ((void *)(base + 4096 + dist[k])) FarObj(1 + k);
+      IntrusivePtr<FarObj> hb = ob;
+      ob->refDec();
+      IntrusivePtr<FarObj> ha2 = ha;
+      c08c_far_result(k, 0, ha == hb, ha != hb, ha < hb, hb < ha, (unsigned long long)(uintptr_t)oa, (unsigned long long)(uintptr_t)ob);
+      c08c_far_result(k, 1, ha == ha2, ha != ha2, ha < ha2, ha2 < ha, (unsigned long long)(uintptr_t)oa, (unsigned long long)(uintptr_t)oa);
+    }
+  }
+  int destroyed = FarObj::destroyed;
+  munmap((void *)base, span);
+  c08c_far_done(destroyed);
+}
+
 extern "C" void c08c_run()
 {
   const C08CPlan *p = c08c_plan();
+  if (p->far_apart > 0)
+    return run_far(p);
   if (p->long_n > 0)
     return run_long(p);
   if (p->cycle)
